@@ -233,8 +233,7 @@ RealObsOuts(o) == ObsOuts(o) \ {"lost", "unbound"}
 ObsRanges(o, x) == IF x \in ObsOuts(o) /\ Has(o.outs[x], "r") THEN o.outs[x].r ELSE <<>>
 ObsIns(o, x) == IF x \in ObsOuts(o) /\ Has(o.outs[x], "ins") THEN o.outs[x].ins ELSE <<>>
 Charms(i) == SeqToSet(i.charms)
-InscByLabel(o) == [x \in {o.insc[k].l : k \in 1..Len(o.insc)} |->
-                     o.insc[CHOOSE k \in 1..Len(o.insc) : o.insc[k].l = x]]
+InscByLabel(o) == [x \in DOMAIN o.inscIdx |-> o.insc[o.inscIdx[x]]]
 
 \* ---- C01: sat ranges follow the BIP assignment
 C01(o) ==
@@ -248,23 +247,30 @@ C01(o) ==
   /\ Chk("C01.lost", Norm(ObsRanges(o, "lost")) = Norm(L.lost), <<ObsRanges(o, "lost"), L.lost>>)
 
 \* ---- C02: partition and lookups
-RangeLess(a, b) == a[1] < b[1]
+\* o.sorted is the harness's listing of every stored range [start, end, outpoint], sorted by
+\* start (a projection of the same `list` results that C01 compares with the reference ledger)
 C02(o) ==
-  LET outSeq == SetToSeq(ObsOuts(o))
-      all == ConcatAll([k \in 1..Len(outSeq) |-> ObsRanges(o, outSeq[k])])
-      nz == SelectSeq(all, LAMBDA r : r[2] > r[1])
-      sorted == SortSeq(nz, RangeLess)
-  IN /\ Chk("C02.partition",
+  LET sorted == o.sorted
+      inOut(x, s) == OffsetOf(ObsRanges(o, x), s, 0)
+  IN /\ Chk("C02.nonunit", o.nonunit = <<>>, o.nonunit)
+     /\ Chk("C02.partition",
             /\ (sorted = <<>> \/ sorted[1][1] = 0)
             /\ \A k \in 1..(Len(sorted) - 1) : sorted[k][2] = sorted[k + 1][1]
-            /\ (sorted # <<>> => sorted[Len(sorted)][2] = o.count * S),
+            /\ (sorted # <<>> => sorted[Len(sorted)][2] = o.count * S)
+            /\ Len(sorted) = SumSeq([k \in 1..Len(o.outOrder) |->
+                                     Len(SelectSeq(ObsRanges(o, o.outOrder[k]), LAMBDA r : r[2] > r[1]))]),
             <<"count", o.count>>)
+     /\ Chk("C02.outOrder", SeqToSet(o.outOrder) = ObsOuts(o) /\ Len(o.outOrder) = Cardinality(ObsOuts(o)), o.outOrder)
      /\ \A x \in RealObsOuts(o) \cap DOMAIN L.meta :
            Chk("C02.value", Total(ObsRanges(o, x)) = o.outs[x].v /\ o.outs[x].v = L.meta[x].v, x)
      /\ Chk("C02.lostStat", o.stats.lost = Total(ObsRanges(o, "lost")), o.stats.lost)
      /\ \A k \in 1..Len(o.finds) :
-           Chk("C02.find", o.finds[k][2] = (IF o.finds[k][1] >= o.count * S THEN <<>> ELSE LocSat(o.finds[k][1])),
-               <<o.finds[k], LocSat(o.finds[k][1])>>)
+           LET s == o.finds[k][1]
+               f == o.finds[k][2]
+           IN Chk("C02.find",
+                  IF s >= o.count * S THEN f = <<>>
+                  ELSE f # <<>> /\ f[1] \in ObsOuts(o) /\ inOut(f[1], s) = f[2],
+                  o.finds[k])
      /\ \A k \in 1..Len(o.franges) :
            LET fr == o.franges[k] IN
            IF fr[2] > o.count * S THEN Chk("C02.frangeUnmined", ~fr[3], fr)
@@ -274,21 +280,22 @@ C02(o) ==
                     /\ \A j \in 1..Len(fr[4]) :
                           LET p == fr[4][j] IN
                           /\ p[1] >= fr[1] /\ p[1] + p[2] <= fr[2] /\ p[2] > 0
-                          /\ LocSat(p[1]) = <<p[3], p[4]>>
-                          /\ LocSat(p[1] + p[2] - 1) = <<p[3], p[4] + p[2] - 1>>
+                          /\ p[3] \in ObsOuts(o)
+                          /\ inOut(p[3], p[1]) = p[4]
+                          /\ inOut(p[3], p[1] + p[2] - 1) = p[4] + p[2] - 1
                     /\ \A j1, j2 \in 1..Len(fr[4]) : j1 # j2 => fr[4][j1][1] # fr[4][j2][1],
                     fr)
      /\ \A k \in 1..Len(o.rare) :
-           Chk("C02.rareRow", LocSat(o.rare[k][1]) = <<o.rare[k][2], o.rare[k][3]>>, o.rare[k])
-     /\ \A x \in ObsOuts(o) : \A k \in 1..Len(ObsRanges(o, x)) :
-           LET r == ObsRanges(o, x)[k] IN
-           (r[2] > r[1] /\ r[1] % S = 0) =>
-              Chk("C02.rareMissing", \E j \in 1..Len(o.rare) : o.rare[j][1] = r[1], <<x, r>>)
+           Chk("C02.rareRow", o.rare[k][2] \in ObsOuts(o) /\ inOut(o.rare[k][2], o.rare[k][1]) = o.rare[k][3], o.rare[k])
+     /\ LET rareSats == {o.rare[j][1] : j \in 1..Len(o.rare)} IN
+        \A k \in 1..Len(sorted) :
+           (sorted[k][1] % S = 0) => Chk("C02.rareMissing", sorted[k][1] \in rareSats, sorted[k])
 
 \* ---- C03: inscriptions move with their sat
 C03(o) ==
   LET I == InscByLabel(o) IN
-  \A x \in DOMAIN I :
+  /\ Chk("C03.nonunit", o.nonunit = <<>>, o.nonunit)
+  /\ \A x \in DOMAIN I :
      x \in DOMAIN L.envs =>
        LET e == L.envs[x]
            i == I[x]
@@ -305,21 +312,22 @@ C03(o) ==
 C04(o) ==
   LET I == InscByLabel(o)
       allPairs == UNION {{<<y, k>> : k \in 1..Len(ObsIns(o, y))} : y \in ObsOuts(o)}
-      holders(x) == {p \in allPairs : ObsIns(o, p[1])[p[2]][1] = x}
-  IN /\ Chk("C04.count", o.nEntries = Len(L.order) /\ Len(o.insc) = Len(L.order)
+      listed == {ObsIns(o, p[1])[p[2]][1] : p \in allPairs}
+  IN /\ Chk("C04.nonunit", o.nonunit = <<>>, o.nonunit)
+     /\ Chk("C04.count", o.nEntries = Len(L.order) /\ Len(o.insc) = Len(L.order)
                          /\ o.nIds = o.nEntries /\ o.nNumbers = o.nEntries /\ o.nSatpoints = o.nEntries
                          /\ o.stats.blessed + o.stats.cursed = o.nEntries,
             <<o.nEntries, Len(L.order), Len(o.insc), o.nIds, o.nNumbers, o.nSatpoints, o.stats>>)
      /\ Chk("C04.all", DOMAIN I = SeqToSet(L.order), <<SeqToSet(L.order) \ DOMAIN I>>)
      /\ \A y \in ObsOuts(o) : Chk("C04.listLen", Has(o.outs[y], "insRaw") => o.outs[y].insRaw = Len(ObsIns(o, y)), y)
-     /\ \A x \in DOMAIN I :
-           /\ Chk("C04.oneHolder", Cardinality(holders(x)) = 1, <<x, holders(x)>>)
-           /\ \A hk \in holders(x) :
-                 /\ Chk("C04.listed", I[x].sp = <<hk[1], ObsIns(o, hk[1])[hk[2]][2]>>, <<x, I[x].sp, hk>>)
-                 /\ (hk[1] \notin {"lost", "unbound"} =>
-                       Chk("C04.offset", ObsIns(o, hk[1])[hk[2]][2] < o.outs[hk[1]].v, <<x, hk>>))
-     /\ \A y \in ObsOuts(o) : \A k \in 1..Len(ObsIns(o, y)) :
-           Chk("C04.known", ObsIns(o, y)[k][1] \in DOMAIN I, <<y, ObsIns(o, y)[k]>>)
+     \* every inscription is listed by exactly one output: no label listed twice, none missing
+     /\ Chk("C04.oneHolder", Cardinality(listed) = Cardinality(allPairs) /\ listed = DOMAIN I,
+            <<"unlisted", DOMAIN I \ listed, "unknown", listed \ DOMAIN I, Cardinality(allPairs)>>)
+     /\ \A p \in allPairs :
+           LET ent == ObsIns(o, p[1])[p[2]] IN
+           /\ (ent[1] \in DOMAIN I => Chk("C04.listed", I[ent[1]].sp = <<p[1], ent[2]>>, <<ent, p>>))
+           /\ (p[1] \notin {"lost", "unbound"} =>
+                 Chk("C04.offset", ent[2] < o.outs[p[1]].v, <<ent, p>>))
 
 \* ---- C05: numbers, sequence numbers, ids
 C05(o) ==
